@@ -330,10 +330,8 @@ Proof.
     unfold list_step in IH.
     assert (Hp' : 0 <= p + Z.of_nat (length (enc_item w p x))) by lia.
     specialize (IH f w _ k Hp' Hw Hwl Hfl ltac:(lia)).
-    rewrite !app_length in *. rewrite <- !app_assoc in IH.
-    replace (p + Z.of_nat (length (enc_item w p x) + (length (enc_items w (p + Z.of_nat (length (enc_item w p x))) l) + length (bits_of w 0))))
-      with (p + Z.of_nat (length (enc_item w p x)) + Z.of_nat (length (enc_items w (p + Z.of_nat (length (enc_item w p x))) l) + length (bits_of w 0))) by lia.
-    rewrite IH. f_equal. f_equal. f_equal. lia.
+    rewrite (app_length (enc_item w p x)), Nat2Z.inj_add, Z.add_assoc.
+    rewrite IH. reflexivity.
 Qed.
 
 Lemma enc_block_length_aligned : forall w pos id nw body, 0 <= pos ->
